@@ -50,9 +50,9 @@ def pyprobe(seed, tier, log):
                 "findings": [{"class": "oracle", "props": ["C20"], "kind": "interpreter-crash", "input": "c20_probe.py", "detail": p.stdout[-400:]}]}
     return r
 
-def P(streams, tb=None, assumptions=None, partial="", extra=None):
+def P(streams, tb=None, assumptions=None, partial="", extra=None, ties=None):
     return {"streams": streams, "trusted_base": TB_COMMON + (tb or []),
-            "assumptions": assumptions or [], "partial": partial, "extra": extra or []}
+            "assumptions": assumptions or [], "partial": partial, "extra": extra or [], "ties": ties or []}
 
 QUAD_TB = ["BTreeSet<ApproxInterval> modelled as a sorted list under the same comparator (Cav/Model/Quad.lean setInsert/setRemove)",
            "T1 translator translate/tables.py (regex on the two const tables; literals -> exact dyadic rationals via python float/Fraction)"]
@@ -81,9 +81,9 @@ PROPS = {
     "C03": P(["tri"], tb=TRI_TB, assumptions=TRI_AS,
              partial="the tiling clauses (inside, pairwise disjoint, area sum) are decided by the exact integer oracle on every explored input (exhaustive on the 4x4 lattice up to 6 vertices); the all-input theorems cover non-degeneracy and the local geometry"),
     "C04": P(["tri"], tb=TRI_TB, assumptions=TRI_AS,
-             partial="acceptance of every valid set is decided by exhaustive enumeration + structured generators, not by a theorem (needs the sweep invariant)"),
+             partial="acceptance is a theorem for every non-degenerate triangle (C04Triangle.triangle_accepted_general, vertical edges included) and every simple quadrilateral with distinct abscissae (C04Quad.quad_accepted: convex, reflex Bend, improper Start, merging End; two triangles, exact area, ghost order flag true); C04Ties/C04Order justify the comparator's tie rules and the list model of the B-tree; for larger inputs acceptance is decided by exhaustive enumeration + structured generators (the general sweep invariant is not proved)"),
     "C15": P(["tri"], tb=TRI_TB, assumptions=TRI_AS,
-             partial="panic-freedom of the model is decided on explored inputs; the deep field-wise `==` of BTreeSet::range's sanity check is modelled by identity only"),
+             partial="C15Heap proves for every input that the model never fails with a heap-encoding panic (model-bad-*), never reaches `unreachable`, and (over XQ) never indexes a missing registered edge (`index`): the only panic kind not excluded by a theorem is a RefCell `borrow` conflict, which is decided on explored inputs; the deep field-wise `==` of BTreeSet::range's sanity check is modelled by identity only"),
     "C16": P(["tri"], tb=TRI_TB, assumptions=TRI_AS,
              partial="global rejection of every proper crossing is decided by exhaustive enumeration; the theorems cover the local crossing test"),
     "C07": P(["disp2d"], tb=DISP_TB, assumptions=DISP_AS,
@@ -110,6 +110,20 @@ PROPS = {
              tb=QUAD_TB, assumptions=QUAD_AS,
              partial="non-negativity of the estimate and 'NaN sample never ok' are arithmetic facts: proved in exact arithmetic / under NaN-absorption laws, explored at Float"),
 }
+
+# tie modules (see check.thm_modules): Cav/Thm/C06.lean holds shape_ok / context_tables_ok / default_ctx_matches_tables,
+# the T4/T5 facts about parsing.rs, helpers.rs and display.rs that the hand-written parser, list, helper, split and
+# display models were written against
+for _pid in ("C07", "C08", "C11", "C12", "C13", "C14", "C17", "C18", "C19", "C20"):
+    PROPS[_pid]["ties"] = ["C06"]
+# Cav/Thm/C01Tables.lean: the Gauss-Kronrod tables in the source are the 10/21-point pair (defects on monomials,
+# embedded nodes, positive weights): an obligation of every property whose model integrates with them
+# Cav/Thm/C05*.lean: the AD operations regenerated from differentiable.rs / basic_arithmetic.rs compute value and true
+# derivative; the displays differentiate f, c, g through them
+for _pid in ("C07", "C08", "C11", "C12", "C13", "C14"):
+    PROPS[_pid]["ties"] = PROPS[_pid]["ties"] + ["C05", "C05Defaults"]
+for _pid in ("C02", "C07", "C08", "C09", "C10", "C13"):
+    PROPS[_pid]["ties"] = PROPS[_pid]["ties"] + ["C01Tables"]
 
 # what each claimed check says about itself in MANIFEST.json
 LEVEL_TEXT = {
